@@ -255,6 +255,30 @@ def run(rep, tier, rng):
                     rep.violation(f"transform_to(target, populate=True) did not append exactly the missing keys: {before[0]} -> {after[0]}",
                                   {"case": {"alg": al, "strict": strict}})
 
+    # ---- the vocabulary as the *source* of transform_to / create_subset: never changed -----------------------------
+    for al in algs.ALGS:
+        for strict in (True, False):
+            for populate, keys in itertools.product((None, False, True), (None, ["A", "Cc"], [])):
+                A = algs.alg_obj(al)
+                voc = spa.Vocabulary(d, strict=strict, algebra=A, pointer_gen=np.random.RandomState(1))
+                for i, k in enumerate(["A", "B", "Cc"]):
+                    voc.add(k, np.array(script_vec(d, i), float))
+                tgt = spa.Vocabulary(d, strict=True, algebra=A, pointer_gen=np.random.RandomState(2))
+                tgt.add("A", np.array(script_vec(d, 7), float))
+                before = (list(voc.keys()), list(voc), np.array(voc.vectors, copy=True), len(voc))
+                with warnings.catch_warnings():
+                    warnings.simplefilter("ignore")
+                    c.outcome(lambda: voc.transform_to(tgt, populate=populate, keys=keys))
+                    c.outcome(lambda: voc.create_subset(["A"]))
+                after = (list(voc.keys()), list(voc), np.asarray(voc.vectors), len(voc))
+                rep.case(("as-source", al, strict, populate, repr(keys)))
+                rep.count("op_transform_to_from")
+                if not (after[0] == before[0] and after[1] == before[1] and np.array_equal(after[2], before[2]) and after[3] == before[3]):
+                    rep.violation(f"transform_to(populate={populate}, keys={keys}) / create_subset changed the SOURCE vocabulary: keys {before[0]} -> {after[0]} ({al}, strict={strict})",
+                                  {"case": {"alg": al, "strict": strict, "populate": populate, "keys": keys},
+                                   "python": "import warnings, nengo_spa as spa\nwarnings.simplefilter('ignore')\ns = spa.Vocabulary(16); s.populate('A; B; C')\n"
+                                             "t = spa.Vocabulary(16); t.populate('A')\ns.transform_to(t)\nassert list(s.keys()) == ['A', 'B', 'C'], list(s.keys())\n"})
+
     firsts = c.coq_eval("C09", "cases", IMPORTS, exprs, ty="nat", shard=60)
     for fd, (al, strict, cops, snaps, pylog) in zip(firsts, cases):
         if fd == len(cops):
